@@ -25,8 +25,9 @@ import (
 //   st.names  <kind> <blocks> <start> <end> <matchers> <without>            LabelNames  -> ok <name ranks> | <error enum>
 //   st.values <kind> <blocks> <start> <end> <matchers> <without> <label>    LabelValues -> ok <value ranks> | invalid | <error enum>
 //
-//   o.proxy.names  <blocks> <start> <end> <matchers> <without>            the same through a ProxyStore in front of the TSDBStore of
-//   o.proxy.values <blocks> <start> <end> <matchers> <without> <label>    the first block and the BucketStore of all blocks (oracle only)
+//   px.series <blocks> <mint> <maxt> <matchers> <without> <skip>       the same three calls through a ProxyStore (no selector
+//   px.names  <blocks> <start> <end> <matchers> <without>              labels, partial response ABORT) in front of the TSDBStore of
+//   px.values <blocks> <start> <end> <matchers> <without> <label>      the first block and the BucketStore of all blocks
 //
 // oracle (on the implementation; the Series call with the same selectors, range and replica labels is made next to
 // the label call):
@@ -138,12 +139,13 @@ func (r *stReq) proxy() (*store.ProxyStore, bool) {
 	return store.NewProxyStore(log.NewNopLogger(), nil, func() []store.Client { return clients }, component.Query, labels.EmptyLabels(), time.Minute, store.EagerRetrieval), true
 }
 
+// execProxy: px.series / px.names / px.values through the ProxyStore in front of both stores.
 func execProxy(c *hlib.Ctx, tok []string) string {
-	values := tok[0] == "o.proxy.values"
-	if (values && len(tok) != 7) || (!values && len(tok) != 6) {
+	want := map[string]int{"px.series": 7, "px.names": 6, "px.values": 7}[tok[0]]
+	if len(tok) != want {
 		return "bad-op"
 	}
-	r, ok := parseStReq(append([]string{tok[0], "bkt"}, tok[1:]...))
+	r, ok := parseStReq(append([]string{tok[0], "bkt"}, tok[1:6]...))
 	if !ok {
 		return "bad-op"
 	}
@@ -152,14 +154,31 @@ func execProxy(c *hlib.Ctx, tok []string) string {
 		return "bad-op"
 	}
 	ctx := context.Background()
+	skip := tok[0] != "px.series" || tok[6] == "1"
 	srv := &seriesServer{ctx: ctx}
-	serr := p.Series(&storepb.SeriesRequest{MinTime: r.mint, MaxTime: r.maxt, Matchers: r.sms, WithoutReplicaLabels: r.without, SkipChunks: true,
+	serr := p.Series(&storepb.SeriesRequest{MinTime: r.mint, MaxTime: r.maxt, Matchers: r.sms, WithoutReplicaLabels: r.without, SkipChunks: skip,
 		PartialResponseStrategy: storepb.PartialResponseStrategy_ABORT}, srv)
-	if !values {
+	switch tok[0] {
+	case "px.series":
+		if serr != nil {
+			return errEnum(serr)
+		}
+		if len(srv.warnings) > 0 {
+			return "warning"
+		}
+		return "ok " + canonSeries(srv.frames, skip)
+	case "px.names":
 		resp, err := p.LabelNames(ctx, &storepb.LabelNamesRequest{Start: r.mint, End: r.maxt, Matchers: r.sms, WithoutReplicaLabels: r.without,
 			PartialResponseStrategy: storepb.PartialResponseStrategy_ABORT})
 		if err != nil {
 			return errEnum(err)
+		}
+		if !sort.StringsAreSorted(resp.Names) {
+			c.Violation("not-sorted", fmt.Sprintf("proxy LabelNames answer %v", resp.Names))
+		}
+		if !strictlySorted(resp.Names) {
+			// MergeSlices removes a name that two stores answer, not one that a store answers twice (the TSDB store may)
+			c.Count("proxy:repeated-name-in-answer")
 		}
 		if serr != nil {
 			c.Count("proxy:series-call-" + errEnum(serr))
@@ -186,6 +205,9 @@ func execProxy(c *hlib.Ctx, tok []string) string {
 		PartialResponseStrategy: storepb.PartialResponseStrategy_ABORT})
 	if err != nil {
 		return errEnum(err)
+	}
+	if !strictlySorted(resp.Values) {
+		c.Violation("not-sorted", fmt.Sprintf("proxy LabelValues answer %v", resp.Values))
 	}
 	if serr != nil {
 		c.Count("proxy:series-call-" + errEnum(serr))
@@ -219,7 +241,7 @@ func execC07(c *hlib.Ctx, tok []string) string {
 		return "bad-op"
 	}
 	switch tok[0] {
-	case "o.proxy.names", "o.proxy.values":
+	case "px.series", "px.names", "px.values":
 		return execProxy(c, tok)
 	case "st.names":
 		if len(tok) != 7 {
@@ -356,8 +378,10 @@ func genC07(c *hlib.Ctx) {
 			// the same through the proxy in front of both stores (bucket stores need external labels on every block)
 			if kind == "bkt" && r.Chance(1, 2) {
 				c.Count("st:proxy")
-				c.Do(fmt.Sprintf("o.proxy.names %s %d %d %s %s", tb, mint, maxt, showMatchers(ms), without), true)
-				c.Do(fmt.Sprintf("o.proxy.values %s %d %d %s %s %d", tb, mint, maxt, showMatchers(ms), without, lns[r.Intn(3)]), true)
+				ans := c.Do(fmt.Sprintf("px.series %s %d %d %s %s %d", tb, mint, maxt, showMatchers(ms), without, r.Intn(2)), true)
+				c.Count("proxy:series-" + answerKind(ans))
+				c.Do(fmt.Sprintf("px.names %s %d %d %s %s", tb, mint, maxt, showMatchers(ms), without), true)
+				c.Do(fmt.Sprintf("px.values %s %d %d %s %s %d", tb, mint, maxt, showMatchers(ms), without, lns[r.Intn(3)]), true)
 			}
 		}
 	}
